@@ -529,6 +529,25 @@ fn run_product(rep: &mut Report, mode: Mode, tier: Tier) {
                     }
                 }
                 check_case(mode, &wrapped, &real_wrapped, &base, t);
+                // array and object limits of different *nature* (none / always / item count on
+                // one side, a width on the other, thresholds far from and near the actual width)
+                // around a long scalar sitting directly in an object, in an array, and in both
+                if base == Opts::pretty() && !rv.is_container() && (k <= 136 || matches!(k % 16, 0 | 1 | 15)) && k <= 1100 {
+                    let kinds = [None, Some(Limit::Always), Some(Limit::Item(1)), Some(Limit::Item(100)), Some(Limit::Width(8)), Some(Limit::Width(k + 40)), Some(Limit::Width(100_000)), Some(Limit::ItemOrWidth(1, 8)), Some(Limit::ItemOrWidth(100, 100_000))];
+                    let in_obj = RV::Obj(vec![("k".to_string(), rv.clone())]);
+                    let in_arr = RV::Arr(vec![rv.clone()]);
+                    let shapes = [(in_obj.clone(), bridge::to_value(&in_obj)), (in_arr.clone(), bridge::to_value(&in_arr)), (wrapped.clone(), real_wrapped.clone())];
+                    for a in &kinds {
+                        for b in &kinds {
+                            let mut o = base.clone();
+                            o.array_limit = a.clone();
+                            o.object_limit = b.clone();
+                            for (srv, sreal) in &shapes {
+                                check_case(mode, srv, sreal, &o, t);
+                            }
+                        }
+                    }
+                }
                 for w in [254usize, 255, 256, 257, 65534, 65535, 65536, 65537] {
                     let mut o = base.clone();
                     o.array_limit = Some(Limit::Width(w));
